@@ -112,10 +112,20 @@ class Gen:
                 if t == 'a' and inside_a:
                     t = 'span'
                 toks[i] = ('<a href="%s">%s</a>' % (r.choice(HREFS), toks[i])) if t == 'a' else '<%s>%s</%s>' % (t, toks[i], t)
-            elif k < 0.80:                 # change an href / src
+            elif k < 0.78:                 # change an href / src
                 for i, t in enumerate(toks):
                     if t.startswith('<a ') and r.random() < 0.5:
                         toks[i] = '<a href="%s">' % r.choice(HREFS)
+                        break
+            elif k < 0.80:                 # unlink: the anchor loses its href and the address is spelled out after it
+                for i, t in enumerate(toks):
+                    m = re.match(r'<a [^>]*href="([^"]*)"', t)
+                    if m and r.random() < 0.6:
+                        for j in range(i + 1, len(toks)):
+                            if toks[j] == '</a>':
+                                toks[i] = '<a>'
+                                toks[j] = '</a>' + (m.group(1) if r.random() < 0.7 else ' ' + m.group(1) + ' ')
+                                break
                         break
             elif k < 0.9:                  # delete a balanced top-level element
                 pos = self._top_level_positions(toks)
